@@ -107,7 +107,7 @@ impl<T: RealNumber, M: Matrix<T>> InteriorPointOptimizer<T, M> {
             let gap = pobj - dobj;
 
             // STOPPING CRITERION
-            if gap / dobj < tol {
+            if gap / dobj < tol || gap <= T::zero() {
                 break;
             }
 
